@@ -2,6 +2,7 @@ package main
 
 import (
 	"fmt"
+	"os"
 	"go/token"
 	"strings"
 	"go/types"
@@ -26,6 +27,8 @@ func fastDisabledEdge(from *ssa.BasicBlock, si int) bool {
 
 func checkC07(c *Ctx) {
 	l := c.L
+	checkSnapshotFlags(c, "FLOW-snapshot-flags")
+	checkNoDirectStoreWrites(c, "OWN-store-writes")
 	c.rule("FLOW-label-source", "index label version = version of the tree the index is built from", 1)
 	c.rule("DOM-version-guard", "indexed answers only under a version guard", 4)
 	c.rule("OWN-index-cache", "index cache and key-space touched only by their owners, cache after commit", 5)
@@ -448,6 +451,7 @@ func checkVersionGuard(c *Ctx) {
 // every load and the import reach the index rebuild decision.
 func checkRebuildDecision(c *Ctx, rule string) {
 	l := c.L
+	checkForceUpgradeTable(c, "TABLE-force-rebuild")
 	enable := l.Func("", "*MutableTree.enableFastStorageAndCommitIfNotEnabled")
 	lvo := l.Func("", "*MutableTree.LoadVersionForOverwriting")
 	lv := l.Func("", "*MutableTree.LoadVersion")
@@ -759,6 +763,7 @@ func checkFailedRebuildDisablesIndex(c *Ctx, rule string) {
 // which label and latest version agree and the stale index is trusted.
 func checkRollbackDropsLabel(c *Ctx, rule string) {
 	l := c.L
+	checkStorageVersionWriters(c, "OWN-storage-version")
 	c.rule(rule, "a rollback drops or rewrites the label of the persisted index", 1)
 	dvf := l.Func("", "*nodeDB.DeleteVersionsFrom")
 	tr := l.Func("", "*nodeDB.traverseRange")
@@ -779,13 +784,57 @@ func checkRollbackDropsLabel(c *Ctx, rule string) {
 		c.anchorMissing(rule, "SetFastStorageVersionToBatch no longer writes a key")
 		return
 	}
-	isLabelWrite := func(in ssa.Instruction) bool {
+	guardUpgraded := func(b *ssa.BasicBlock, succ int) bool {
+		// the edge on which no index was ever built (hasUpgradedToFastStorage() false) needs no label write
+		iff := ifOf(b)
+		if iff == nil {
+			return false
+		}
+		call, ok := stripTrivial(iff.Cond).(*ssa.Call)
+		if !ok {
+			return false
+		}
+		f := staticCallee(&call.Call)
+		return f != nil && f.Name() == "hasUpgradedToFastStorage" && succ == 1
+	}
+	// a helper all of whose success returns pass a label write counts as one (one level)
+	helperWrites := map[*ssa.Function]bool{}
+	var isLabelWrite func(in ssa.Instruction) bool
+	writesLabel := func(f *ssa.Function) bool {
+		if v, ok := helperWrites[f]; ok {
+			return v
+		}
+		helperWrites[f] = false
+		if !l.inModule(f) || len(f.Blocks) == 0 {
+			return false
+		}
+		q := mustStateE(f, false, func(in ssa.Instruction) bool {
+			cc := callCommon(in)
+			if cc == nil {
+				return false
+			}
+			if g := staticCallee(cc); g != nil {
+				return g == setLabel
+			}
+			return cc.IsInvoke() && (cc.Method.Name() == "Delete" || cc.Method.Name() == "Set") && len(cc.Args) >= 1 && roleOf(l, cc.Args[0], "", 0) == labelKey
+		}, nil, guardUpgraded)
+		ok := len(returnsOf(f)) > 0
+		for _, r := range returnsOf(f) {
+			if ei := errResultIndex(f.Signature); ei >= 0 && errNilness(retVal(r, ei), r.Block(), 0) > 0 {
+				continue
+			}
+			ok = ok && q(r)
+		}
+		helperWrites[f] = ok
+		return ok
+	}
+	isLabelWrite = func(in ssa.Instruction) bool {
 		cc := callCommon(in)
 		if cc == nil {
 			return false
 		}
 		if f := staticCallee(cc); f != nil {
-			return f == setLabel
+			return f == setLabel || writesLabel(f)
 		}
 		if cc.IsInvoke() && (cc.Method.Name() == "Delete" || cc.Method.Name() == "Set") && len(cc.Args) >= 1 {
 			return roleOf(l, cc.Args[0], "", 0) == labelKey
@@ -802,19 +851,6 @@ func checkRollbackDropsLabel(c *Ctx, rule string) {
 	if erase == nil {
 		c.anchorMissing(rule, "no range delete over the node key-space in DeleteVersionsFrom")
 		return
-	}
-	guardUpgraded := func(b *ssa.BasicBlock, succ int) bool {
-		// the edge on which no index was ever built (hasUpgradedToFastStorage() false) needs no label write
-		iff := ifOf(b)
-		if iff == nil {
-			return false
-		}
-		call, ok := stripTrivial(iff.Cond).(*ssa.Call)
-		if !ok {
-			return false
-		}
-		f := staticCallee(&call.Call)
-		return f != nil && f.Name() == "hasUpgradedToFastStorage" && succ == 1
 	}
 	inside := true
 	{
@@ -867,4 +903,130 @@ func checkRollbackDropsLabel(c *Ctx, rule string) {
 		pos = l.ipos(bad)
 	}
 	c.bad(rule, "the erase of versions drops the index label", pos, "versions are erased without the label of the persisted index being dropped or rewritten (neither in DeleteVersionsFrom nor, unconditionally, by its callers): the index keeps describing the erased latest version, and when a session that does not maintain the index (skipFastStorageUpgrade) commits the erased version numbers again, label and latest version agree and a later session serves the stale index (Get != tree walk)")
+}
+
+// checkForceUpgradeTable (shared by C07, C09, C10, C12): with a labelled index
+// (two-part storage version) the answer "no rebuild needed" is given only on
+// the edge where the label's version equals the latest version.  Import,
+// rollback and re-enabling all rely on the mismatch to trigger the rebuild.
+func checkForceUpgradeTable(c *Ctx, rule string) {
+	l := c.L
+	c.rule(rule, "a labelled index is kept only when its label equals the latest version", 1)
+	fn := l.Func("", "*nodeDB.shouldForceFastStorageUpgrade")
+	if fn == nil {
+		c.anchorMissing(rule, "nodeDB.shouldForceFastStorageUpgrade")
+		return
+	}
+	var eq []guard   // pass = label == latest
+	var two []guard  // pass = two-part label
+	for _, b := range fn.Blocks {
+		iff := ifOf(b)
+		if iff == nil {
+			continue
+		}
+		bo, ok := stripTrivial(iff.Cond).(*ssa.BinOp)
+		if !ok || (bo.Op != token.EQL && bo.Op != token.NEQ) {
+			continue
+		}
+		rx, ry := roleOf(l, bo.X, "ndb", 0), roleOf(l, bo.Y, "ndb", 0)
+		if os.Getenv("VERIF_DEBUG") != "" {
+			fmt.Fprintln(os.Stderr, "DEBUG force-table", bo.Op, rx, "|", ry)
+		}
+		pass := 0
+		if bo.Op == token.NEQ {
+			pass = 1
+		}
+		switch {
+		case (strings.Contains(rx, "Itoa(") && strings.Contains(rx, "getLatestVersion")) || (strings.Contains(ry, "Itoa(") && strings.Contains(ry, "getLatestVersion")):
+			eq = append(eq, guard{iff, pass})
+		case strings.HasPrefix(rx, "len(") && ry == "2", strings.HasPrefix(ry, "len(") && rx == "2":
+			two = append(two, guard{iff, pass})
+		}
+	}
+	if len(eq) == 0 || len(two) == 0 {
+		c.anchorMissing(rule, "label/latest comparison or two-part test in shouldForceFastStorageUpgrade")
+		return
+	}
+	ok := true
+	var bad ssa.Instruction
+	for _, r := range returnsOf(fn) {
+		k, isC := stripTrivial(retVal(r, 0)).(*ssa.Const)
+		if !isC || k.Value == nil || k.Value.String() != "false" {
+			continue
+		}
+		if errNilness(retVal(r, 1), r.Block(), 0) > 0 {
+			continue
+		}
+		if guardsEffect(two, r) && !guardsEffect(eq, r) {
+			ok, bad = false, r
+		}
+	}
+	pos := l.pos(fn.Pos())
+	if bad != nil {
+		pos = l.ipos(bad)
+	}
+	c.decide(rule, "shouldForceFastStorageUpgrade: no rebuild ⇒ label == latest", pos, ok, "every `false, nil` for a labelled index is on the equality edge",
+		"a labelled index is declared up to date without its label having been found equal to the latest version: import into a loaded empty store, rollback and re-enabling rely on the mismatch to rebuild the index, and serve an empty or stale index otherwise")
+}
+
+// checkStorageVersionWriters (shared by C07, C09): the in-memory copy of the
+// index label (nodeDB.storageVersion) follows the persisted one: it is written
+// only where the persisted label is written in the same function, at
+// construction (read from storage), or by the documented reset after a failed
+// rebuild.  Anything else makes "is there an index, and which version does it
+// describe" a different answer in memory than on disk — and the rollback's
+// label drop, the rebuild decision and the version guards all read the
+// in-memory copy.
+func checkStorageVersionWriters(c *Ctx, rule string) {
+	l := c.L
+	c.rule(rule, "the in-memory index label is written only together with the persisted one", 3)
+	fSV := l.Field("", "nodeDB", "storageVersion")
+	setLabel := l.Func("", "*nodeDB.SetFastStorageVersionToBatch")
+	rebuild := l.Func("", "*MutableTree.enableFastStorageAndCommit")
+	if fSV == nil || setLabel == nil || rebuild == nil {
+		c.anchorMissing(rule, "nodeDB.storageVersion / SetFastStorageVersionToBatch / enableFastStorageAndCommit")
+		return
+	}
+	labelKey := ""
+	allInstrs(setLabel, func(in ssa.Instruction) {
+		cc := callCommon(in)
+		if cc != nil && cc.IsInvoke() && cc.Method.Name() == "Set" && len(cc.Args) >= 1 {
+			labelKey = roleOf(l, cc.Args[0], "", 0)
+		}
+	})
+	n := 0
+	for _, fn := range l.SrcFuncs {
+		if l.pkgPathOf(fn) != l.ModPath {
+			continue
+		}
+		for _, st := range storesToField(fn, fSV) {
+			if _, isAl := stripTrivial(st.Addr.(*ssa.FieldAddr).X).(*ssa.Alloc); isAl {
+				continue // constructor literal: read from storage
+			}
+			n++
+			ok, why := false, ""
+			allInstrs(fn, func(in ssa.Instruction) {
+				cc := callCommon(in)
+				if cc == nil {
+					return
+				}
+				if cc.IsInvoke() && (cc.Method.Name() == "Set" || cc.Method.Name() == "Delete") && len(cc.Args) >= 1 && roleOf(l, cc.Args[0], "", 0) == labelKey {
+					ok, why = true, "the persisted label is written in the same function"
+				}
+			})
+			if !ok {
+				// the reset after a failed rebuild: on the error edge of enableFastStorageAndCommit
+				for _, in := range callsIn(fn, predStatic(rebuild)) {
+					if cl, isCall := in.(*ssa.Call); isCall && instrDominates(cl, st) && !okEdgeDominates(cl, st) {
+						ok, why = true, "reset after the rebuild failed"
+					}
+				}
+			}
+			c.decide(rule, l.fname(fn)+" writes nodeDB.storageVersion", l.ipos(st), ok, why,
+				"the in-memory index label is changed without the persisted label being written in the same function: memory and storage now disagree on whether an index exists and which version it describes (the rollback's label drop, the rebuild decision and IsFastCacheEnabled read the in-memory copy)")
+		}
+	}
+	if n < 3 {
+		c.anchorMissing(rule, "fewer than 3 writers of nodeDB.storageVersion")
+	}
 }
